@@ -96,6 +96,8 @@ pub struct Oracle {
     c20_ticks_seen: usize,
     c16_deliveries_seen: usize,
     registrations_seen: usize,
+    tx_roots_checked: BTreeSet<String>,
+    tx_reference: BTreeMap<u64, Option<String>>,
     /// honest signatures delivered before their round opened (buffered), waiting for it:
     /// (message id, producer, entity, signed message, signature, delivery step, junk / copies around)
     c16_early: Vec<(u32, usize, Entity, String, String, usize, bool, bool)>,
@@ -132,6 +134,8 @@ impl Oracle {
             c20_ticks_seen: 0,
             c16_deliveries_seen: 0,
             registrations_seen: 0,
+            tx_roots_checked: BTreeSet::new(),
+            tx_reference: BTreeMap::new(),
             c16_early: vec![],
             c16_open_seen: BTreeSet::new(),
             c06_epochs_done: BTreeSet::new(),
@@ -299,6 +303,37 @@ impl Oracle {
             self.states.insert(fp.value());
         }
 
+        // transactions: the root the aggregator offers for signing is the root of the chain up to
+        // the beacon (what a signer importing the chain once from scratch computes); judged for
+        // C15 (after a stop the importer resumes on what it had stored)
+        if self.is("C15") {
+            for om in &open_messages {
+                let crate::db::Entity::Ctx { block, .. } = &om.entity else { continue };
+                if !self.tx_roots_checked.insert(om.id.clone()) {
+                    continue;
+                }
+                let offered = serde_json::from_str::<serde_json::Value>(&om.protocol_message_json)
+                    .ok()
+                    .and_then(|v| v["message_parts"]["cardano_transactions_merkle_root"].as_str().map(|s| s.to_string()));
+                let Some(offered) = offered else { continue };
+                let reference = match self.tx_reference.get(block) {
+                    Some(r) => r.clone(),
+                    None => {
+                        let r = crate::signer::reference_transactions_root(w.scratch.path(), *block).ok();
+                        self.tx_reference.insert(*block, r.clone());
+                        r
+                    }
+                };
+                self.probe("transactions_roots_compared_with_a_fresh_import");
+                if let Some(reference) = reference
+                    && reference != offered
+                {
+                    self.report(step, "transactions-root-differs-from-chain", format!(
+                        "the message offered for signing for {} carries the transactions Merkle root {} while importing the chain once from scratch up to block {block} gives {}: signers that compute it from the chain cannot sign this round",
+                        om.entity.label(), short(&offered), short(&reference)));
+                }
+            }
+        }
         // track open messages (for the C16 conservation clause)
         for om in &open_messages {
             let pm: Option<ProtocolMessage> = serde_json::from_str(&om.protocol_message_json).ok();
